@@ -482,3 +482,127 @@ Proof.
   destruct (pratt_formula (its ++ more)) as [t|] eqn:EP; [|discriminate]. injection E as <- <-.
   split; [|exact Hr1]. eapply pratt_formula_ok; [exact (FOK_app its more A C)|exact EP].
 Qed.
+
+(* ---------- theories, annotated formulas, specifications, user guides ---------- *)
+Lemma peg_dotted_ok {A} (entry : nat -> list token -> res A) (P : A -> Prop) :
+  (forall fuel, rec_ok (entry fuel) P) -> forall fuel, rec_ok (peg_dotted entry fuel) (fun l => forall x, In x l -> P x).
+Proof.
+  intros HE. induction fuel as [|f IH]; intros ts x r H E; [discriminate|]. cbn [peg_dotted] in E.
+  destruct (entry f ts) as [y r0| |] eqn:EY; try discriminate; try (injection E as <- <-; split; [intros ? []|exact H]).
+  destruct (HE f ts y r0 H EY) as [Py Hr0].
+  destruct r0 as [|t0 r0]; [injection E as <- <-; split; [intros ? []|exact H]|].
+  destruct t0; try (injection E as <- <-; split; [intros ? []|exact H]).
+  apply toks_ok_cons in Hr0. destruct (peg_dotted entry f r0) as [l r1| |] eqn:ED; try discriminate. injection E as <- <-.
+  destruct (IH r0 l r1 (proj2 Hr0) ED) as [Pl Hr1]. split; [|exact Hr1].
+  intros z [<-|Hz]; [exact Py|apply Pl; exact Hz].
+Qed.
+
+Definition nm_annot (a : aformula_annot) : Prop :=
+  (is_empty (an_name a) || is_symbol_name (an_name a)) = true /\ nm_formula (an_formula a) = true.
+
+Ltac split_match E :=
+  repeat match type of E with context [match ?x with _ => _ end] => is_var x; destruct x end.
+
+Lemma toks_ok_drop3 t1 t2 t3 ts : toks_ok (t1 :: t2 :: t3 :: ts) -> tok_ok t2 = true /\ toks_ok ts.
+Proof. intros H. apply toks_ok_cons in H. destruct H as [_ H]. apply toks_ok_cons in H. destruct H as [H2 H]. apply toks_ok_cons in H. tauto. Qed.
+
+Lemma peg_direction_ok' ts d r : toks_ok ts -> peg_direction ts = (d, r) -> toks_ok r.
+Proof.
+  intros H E. unfold peg_direction in E. split_match E; try (injection E as <- <-; exact H).
+  all: destruct (direction_of_word _); injection E as <- <-; [|exact H]; apply toks_ok_drop3 in H; tauto.
+Qed.
+Lemma peg_name_ok' ts n r : toks_ok ts -> peg_name ts = (n, r) -> (is_empty n || is_symbol_name n) = true /\ toks_ok r.
+Proof.
+  intros H E. unfold peg_name in E. split_match E; try (injection E as <- <-; split; [reflexivity|exact H]).
+  all: injection E as <- <-; apply toks_ok_drop3 in H; destruct H as [Hn H]; cbn [tok_ok] in Hn; rewrite Hn; split; [apply orb_true_r|exact H].
+Qed.
+
+Lemma peg_annot_ok' fuel : rec_ok (peg_annot fuel) nm_annot.
+Proof.
+  intros ts x r H E. unfold peg_annot in E. destruct ts as [|t ts]; [discriminate|].
+  apply toks_ok_cons in H. destruct H as [_ Hts].
+  destruct (role_of_tok t) as [ro|]; [|discriminate].
+  destruct (peg_direction ts) as [d r1] eqn:ED. pose proof (peg_direction_ok' ts d r1 Hts ED) as Hr1.
+  destruct (peg_name r1) as [n r2] eqn:EN. destruct (peg_name_ok' r1 n r2 Hr1 EN) as [Pn Hr2].
+  destruct r2 as [|t2 r3]; [discriminate|]. destruct t2; try discriminate.
+  apply toks_ok_cons in Hr2. destruct Hr2 as [_ Hr3].
+  destruct (peg_formula fuel r3) as [f r4| |] eqn:EF; try discriminate. injection E as <- <-.
+  destruct (peg_formula_ok fuel r3 f r4 Hr3 EF) as [Pf Hr4]. split; [split; [exact Pn|exact Pf]|exact Hr4].
+Qed.
+
+Definition nm_raw (e : raw_entry) : Prop :=
+  match e with
+  | REInput p _ | REOutput p _ => is_symbol_name p = true
+  | REPlaceholder c _ => is_symbol_name c = true
+  | REFormula a => nm_annot a
+  end.
+
+Lemma peg_ug_annot_ok fuel : rec_ok (peg_ug_annot fuel) nm_raw.
+Proof.
+  intros ts x r H E. unfold peg_ug_annot in E. destruct (peg_annot fuel ts) as [a r0| |] eqn:EA; try discriminate.
+  injection E as <- <-. apply (peg_annot_ok' fuel ts a r0 H EA).
+Qed.
+
+Lemma peg_placeholder_sort_ok ts s r : toks_ok ts -> peg_placeholder_sort ts = (s, r) -> toks_ok r.
+Proof.
+  intros H E. unfold peg_placeholder_sort in E. split_match E; try (injection E as <- <-; exact H).
+  all: destruct (sort_of_word _); injection E as <- <-; [|exact H];
+    apply toks_ok_cons in H; destruct H as [_ H]; apply toks_ok_cons in H; tauto.
+Qed.
+
+Lemma peg_ug_entry_ok' fuel : rec_ok (peg_ug_entry fuel) nm_raw.
+Proof.
+  intros ts x r H E. pose proof (peg_ug_annot_ok fuel ts x r H) as A. unfold peg_ug_entry in E.
+  destruct ts as [|t1 ts1]; [exact (A E)|]. destruct ts1 as [|t2 ts2]; [exact (A E)|].
+  destruct t2; try exact (A E). destruct ts2 as [|t3 ts3]; [exact (A E)|]. destruct t3; try exact (A E).
+  assert (H3 : is_symbol_name s = true /\ toks_ok ts3).
+  { apply toks_ok_cons in H. destruct H as [_ H]. apply toks_ok_cons in H. destruct H as [_ H]. apply toks_ok_cons in H. exact H. }
+  assert (PH : (if is_word "input" t1 then let '(s0, r') := peg_placeholder_sort ts3 in Ok (REPlaceholder s s0) r' else peg_ug_annot fuel (t1 :: TColon :: TWord s :: ts3)) = Ok x r ->
+               nm_raw x /\ toks_ok r).
+  { destruct (is_word "input" t1); [|exact A]. destruct (peg_placeholder_sort ts3) as [s0 r'] eqn:EP.
+    intros [= <- <-]. split; [exact (proj1 H3)|eapply peg_placeholder_sort_ok; [exact (proj2 H3)|exact EP]]. }
+  destruct ts3 as [|t4 ts4]; [exact (PH E)|]. destruct t4; try exact (PH E).
+  destruct ts4 as [|t5 ts5]; [exact (PH E)|]. destruct t5; try exact (PH E).
+  destruct (is_word "input" t1); [injection E as <- <-|destruct (is_word "output" t1); [injection E as <- <-|exact (A E)]].
+  - split; [exact (proj1 H3)|]. destruct H3 as [_ H3]. apply toks_ok_cons in H3. destruct H3 as [_ H3]. apply toks_ok_cons in H3. tauto.
+  - split; [exact (proj1 H3)|]. destruct H3 as [_ H3]. apply toks_ok_cons in H3. destruct H3 as [_ H3]. apply toks_ok_cons in H3. tauto.
+Qed.
+
+(* ---------- C15_image ---------- *)
+Theorem image_theory ts t : toks_ok ts -> parse_theory_toks ts = PR_ok t -> wf_theory t = true.
+Proof.
+  intros H E. unfold parse_theory_toks, finish in E.
+  destruct (peg_dotted peg_formula (fuel_of ts) ts) as [l [|? ?]| |] eqn:ED; try discriminate.
+  destruct (forallb formula_in_range l) eqn:ER; [|discriminate]. injection E as <-.
+  destruct (peg_dotted_ok peg_formula _ peg_formula_ok (fuel_of ts) ts l [] H ED) as [Pl _].
+  unfold wf_theory. apply forallb_forall. intros f Hf. apply wf_of_nm; [apply Pl; exact Hf|].
+  rewrite forallb_forall in ER. apply ER. exact Hf.
+Qed.
+
+Lemma wf_annot_of a : nm_annot a -> formula_in_range (an_formula a) = true -> wf_annot a = true.
+Proof. intros [A C] R. unfold wf_annot. rewrite A, (wf_of_nm _ C R). reflexivity. Qed.
+
+Theorem image_spec ts s : toks_ok ts -> parse_spec_toks ts = PR_ok s -> wf_spec s = true.
+Proof.
+  intros H E. unfold parse_spec_toks, finish in E.
+  destruct (peg_dotted peg_annot (fuel_of ts) ts) as [l [|? ?]| |] eqn:ED; try discriminate.
+  destruct (forallb (fun a => formula_in_range (an_formula a)) l) eqn:ER; [|discriminate]. injection E as <-.
+  destruct (peg_dotted_ok peg_annot _ peg_annot_ok' (fuel_of ts) ts l [] H ED) as [Pl _].
+  unfold wf_spec. apply forallb_forall. intros a Ha. apply wf_annot_of; [apply Pl; exact Ha|].
+  rewrite forallb_forall in ER. apply (ER a Ha).
+Qed.
+
+Theorem image_ug ts u : toks_ok ts -> parse_ug_toks ts = PR_ok u -> wf_ug u = true.
+Proof.
+  intros H E. unfold parse_ug_toks, finish in E.
+  destruct (peg_dotted peg_ug_entry (fuel_of ts) ts) as [l [|? ?]| |] eqn:ED; try discriminate.
+  destruct (forallb raw_entry_in_range l) eqn:ER; [|discriminate]. injection E as <-.
+  destruct (peg_dotted_ok peg_ug_entry _ peg_ug_entry_ok' (fuel_of ts) ts l [] H ED) as [Pl _].
+  unfold wf_ug. apply forallb_forall. intros e He. apply in_map_iff in He. destruct He as (x & <- & Hx).
+  specialize (Pl x Hx). rewrite forallb_forall in ER. specialize (ER x Hx).
+  destruct x as [p n|p n|c s|a]; cbn [entry_of_raw wf_ug_entry nm_raw raw_entry_in_range] in *.
+  - unfold wf_pred. cbn [psym parity]. rewrite Pl, N2Nat.id, ER. reflexivity.
+  - unfold wf_pred. cbn [psym parity]. rewrite Pl, N2Nat.id, ER. reflexivity.
+  - exact Pl.
+  - apply wf_annot_of; assumption.
+Qed.
